@@ -1,0 +1,23 @@
+//go:build verif
+
+package carv1
+
+// Contracts for the verification machinery in /verif (comment-only; see /verif/DESIGN.md).
+
+//@ func ReadHeader
+//@   modifies pos(r)
+//@   let hb, lerr := call[util.LdRead#0]
+//@   ensures consumed [C01,C03,C07,C12,C14]: err == nil ==> result0 != nil && pos(r) == old(pos(r)) + vsize(enclen(result0)) + enclen(result0)
+//@   ensures bounded [C09]: err == nil ==> enclen(result0) <= maxReadBytes
+//@   ensures eof_clean [C02]: err == io.EOF ==> pos(r) == old(pos(r))
+//@   ensures too_large [C09]: lerr == util.ErrSectionTooLarge ==> err == util.ErrHeaderTooLarge
+//@   ensures monotone: pos(r) >= old(pos(r))
+//@   ensures fresh: err == nil ==> freshobj(result0)
+
+//@ func WriteHeader
+//@   modifies wn(w)
+//@   ensures count [C01,C05,C12]: err == nil ==> wn(w) == old(wn(w)) + vsize(enclen(h)) + enclen(h)
+//@   ensures monotone [C16]: wn(w) >= old(wn(w))
+
+//@ func HeaderSize
+//@   ensures size [C01,C07,C12,C14]: err == nil && result0 == vsize(enclen(h)) + enclen(h)
